@@ -60,6 +60,18 @@ fn get_file_or_stdin(path: &str) -> anyhow::Result<Box<dyn Read>> {
     Ok(result)
 }
 
+// A construct that ends on a later line has an end column unrelated to its start column: underline up
+// to the end of the line it starts on instead.
+fn column_end_on_line(span: &HumanSpan, line: &str) -> usize {
+    let start = span.column_start_machine();
+    let end = span.column_end_machine();
+    if end > start {
+        end
+    } else {
+        line.len().max(start + 1)
+    }
+}
+
 struct ErrMsg {
     err: chic::Error,
 }
@@ -72,12 +84,13 @@ impl ErrMsg {
     }
 
     fn error(self, span: &HumanSpan, source: &str, what: &str) -> Self {
+        let line = source.lines().nth(span.line_machine()).unwrap_or_default();
         Self {
             err: self.err.error(
                 span.line,
                 span.column_start_machine(),
-                span.column_end_machine(),
-                source.lines().nth(span.line_machine()).unwrap(),
+                column_end_on_line(span, line),
+                line,
                 what,
             ),
         }
@@ -112,12 +125,13 @@ impl WarnMsg {
     }
 
     fn warning(self, span: &HumanSpan, source: &str, what: &str) -> Self {
+        let line = source.lines().nth(span.line_machine()).unwrap_or_default();
         Self {
             warning: self.warning.warning(
                 span.line,
                 span.column_start_machine(),
-                span.column_end_machine(),
-                source.lines().nth(span.line_machine()).unwrap(),
+                column_end_on_line(span, line),
+                line,
                 what,
             ),
         }
